@@ -53,6 +53,7 @@ var boundaryOffsets = []struct {
 
 func TestMain(m *testing.M) {
 	core.DeclareFaults(tamperNames()...)
+	core.DeclareFaults(failedIssueFaults()...)
 	core.DeclareFaults("net-expired-in-flight", "net-became-valid-in-flight", "net-duplicate-delivery", "issuer-clock-ahead", "issuer-clock-behind")
 	var ps []string
 	for _, c := range []string{"exp", "nbf", "iat"} {
@@ -67,7 +68,10 @@ func TestMain(m *testing.M) {
 		"returned-custom-claim-string", "returned-custom-claim-number", "returned-custom-claim-bool", "returned-custom-claim-null", "returned-custom-claim-array", "returned-custom-claim-object", "jwk-transport", "jwk-export-of-private-keyset-refused", "jwk-export-of-mac-keyset-refused", "jwk-export-refused-mldsa", "jwk-tinkkid-becomes-customkid", "jwk-roundtrip-signed-token-verified", "unsettled-iat-missing", "unsettled-reencoded-base64",
 		"custom-kid-key", "tink-kid-key", "ignored-kid-key", "shared-material-keys", "accepted-by-non-first-key", "token-of-foreign-key", "token-of-disabled-key",
 		"header-of-another-keyset-key", "exp-at-max-timestamp", "far-future-leap", "family-HS", "family-ES", "family-RS", "family-PS", "family-ML", "mixed-family-keyset",
-		"accept", "reject", "expired-on-arrival", "aud-list-last-matches", "empty-string-expectation")
+		"accept", "reject", "expired-on-arrival", "aud-list-last-matches", "empty-string-expectation",
+		"rsa-modulus-leading-zero", "rsa-private-integers-leading-zero", "rsa-key-through-proto-parser", "rsa-modulus-bits-not-multiple-of-8", "rsa-key-encoding-refused",
+		"jwk-transport-of-unusual-rsa-key", "failed-issue-by-the-judged-primitive", "failed-issue-by-another-primitive", "failed-issue-then-tink-issue-judged",
+		"issue-attempt-of-unconstrained-outcome", "issue-attempt-expected-to-fail-succeeded")
 	core.Main(m, prop, "jwtclock", map[string]string{
 		"jwt validator, encoding, raw/verified JWT": "real", "jwt MAC / signer / verifier factories and full primitives": "real",
 		"jwt key types (jwthmac, jwtecdsa, jwtrsassapkcs1, jwtrsassapss, jwtmldsa)": "real", "internal/jwk (JWK set export/import)": "real",
@@ -120,6 +124,9 @@ type world struct {
 	tokens []*tokenPlan
 	vals   []*valPlan
 	events []event
+
+	unusualRSA bool // some key of the keyset is an RSA key no template makes (odd modulus length, leading zeros, parsed from a proto)
+	failedIss  int  // issuing attempts that failed as planned
 
 	typesSeen  map[string]bool
 	bits       map[string]bool
@@ -246,7 +253,15 @@ func (w *world) drawKeys() {
 	nMat := rapid.IntRange(1, 3).Draw(t, "nMaterials")
 	for i := 0; i < nMat; i++ {
 		s := pool[rapid.IntRange(0, len(pool)-1).Draw(t, "materialSource")]
-		m, err := newMaterial(fmt.Sprintf("m%d", i), s, rapid.IntRange(0, catalog.PoolKeysPerGroup-1).Draw(t, "poolIdx"))
+		poolIdx := rapid.IntRange(0, catalog.PoolKeysPerGroup-1).Draw(t, "poolIdx")
+		odd := -1
+		if s.fam == "RS" || s.fam == "PS" {
+			// one RSA material in four has a modulus of 2049 or 2052 bits
+			if o := rapid.IntRange(0, 7).Draw(t, "rsaOddModulus"); o >= 6 {
+				odd = o - 6
+			}
+		}
+		m, err := newMaterial(fmt.Sprintf("m%d", i), s, poolIdx, odd)
 		if err != nil {
 			t.Fatalf("harness: material from %s: %v", s.e.Name, err)
 		}
@@ -289,8 +304,35 @@ func (w *world) drawKeys() {
 		default:
 			w.r.Probe("ignored-kid-key")
 		}
+		if m.rsaN != nil {
+			// the same numbers written differently: leading zero bytes (what Java's BigInteger.toByteArray
+			// emits), and the proto parser instead of the constructors as the way in
+			k.lzN = rapid.SampledFrom([]int{0, 0, 0, 1, 1, 2}).Draw(t, "rsaModulusLeadingZeros")
+			k.lzPriv = rapid.SampledFrom([]int{0, 0, 0, 1, 2}).Draw(t, "rsaPrivateLeadingZeros")
+			k.viaProto = rapid.IntRange(0, 3).Draw(t, "rsaKeyThroughProto") == 3
+		}
 		if err := k.build(); err != nil {
 			t.Fatalf("harness: cannot build %s key: %v", k, err)
+		}
+		if m.rsaN != nil {
+			if k.encRefused {
+				w.r.Probe("rsa-key-encoding-refused")
+			}
+			if k.lzN > 0 {
+				w.r.Probe("rsa-modulus-leading-zero")
+			}
+			if k.lzPriv > 0 {
+				w.r.Probe("rsa-private-integers-leading-zero")
+			}
+			if k.viaProto {
+				w.r.Probe("rsa-key-through-proto-parser")
+			}
+			if m.odd {
+				w.r.Probe("rsa-modulus-bits-not-multiple-of-8")
+			}
+			if m.odd || k.lzN > 0 || k.viaProto {
+				w.unusualRSA = true
+			}
 		}
 		w.keys = append(w.keys, k)
 	}
@@ -482,7 +524,7 @@ func (w *world) drawTokens(h house) {
 			var fm *material
 			first := rapid.IntRange(0, catalog.PoolKeysPerGroup-1).Draw(t, "foreignPoolIdx")
 			for j := 0; j < catalog.PoolKeysPerGroup && fm == nil; j++ {
-				c, err := newMaterial(fmt.Sprintf("foreign%d", i), src, first+j)
+				c, err := newMaterial(fmt.Sprintf("foreign%d", i), src, first+j, -1)
 				if err != nil {
 					t.Fatalf("harness: foreign material: %v", err)
 				}
@@ -507,6 +549,13 @@ func (w *world) drawTokens(h house) {
 			tp.via = "own"
 		default:
 			tp.via = rapid.SampledFrom([]string{"tink", "tink", "own"}).Draw(t, "issuedVia")
+		}
+		if tp.via == "tink" {
+			// issuing attempts that fail, right before the real one (see failedIssue)
+			for j, nf := 0, rapid.SampledFrom([]int{0, 0, 0, 1, 1, 2}).Draw(t, "failedIssuesBefore"); j < nf; j++ {
+				tp.fails = append(tp.fails, failPlan{kind: rapid.IntRange(0, len(failKinds)-1).Draw(t, "failedIssueKind"),
+					who: rapid.IntRange(0, 1+len(w.keys)).Draw(t, "failedIssueBy"), p: rapid.Uint64Range(0, 1<<20).Draw(t, "failedIssueVariant")})
+			}
 		}
 		// what the issuer believes the time is
 		tp.skewNs = rapid.SampledFrom([]int64{0, 0, 0, 1, -1, sec1 / 2, sec1, -sec1, 90 * sec1, -90 * sec1, hour, -hour}).Draw(t, "issuerClockError")
@@ -762,6 +811,9 @@ func (w *world) buildVerifier() {
 			// the private keyset signs verifies — is enforced in decide().
 			w.refKeys = w.importedKeys(imp)
 			r.Probe("jwk-transport")
+			if w.unusualRSA {
+				r.Probe("jwk-transport-of-unusual-rsa-key")
+			}
 			for _, k := range w.refKeys {
 				for _, o := range w.keys {
 					if o.enabled && o.rule == jwtref.KIDFromKeyID && o.mat.name == k.Material && k.Rule == jwtref.KIDCustom && k.KID == o.kid {
@@ -1191,7 +1243,7 @@ func run(t *rapid.T) {
 			w.nontrivial = true
 		}
 	}
-	if w.transport == "jwk" {
+	if w.transport == "jwk" || w.failedIss > 0 {
 		w.nontrivial = true
 	}
 
